@@ -168,3 +168,38 @@ package parser
 //@   ensures result1 == nil ==> result0 != nil && sourceOK(result0)
 //@   ensures result1 == nil ==> (forall j int :: {result0.L.toks[j]} 0 <= j && j < len(result0.L.toks) ==> result0.L.toks[j].Terminal != grammar.Endmarker)
 //@   ensures result1 != nil ==> result0 == nil
+
+// ---- ParseAndBuildAST: the generic parse tree (C11) ----
+// One leaf per shifted token with exactly its terminal, lexeme and position; one internal node per reduction
+// whose children are the popped nodes in stack order bottom -> top, i.e. in the order of the production's body.
+
+//@ func (p *Parser) ParseAndBuildAST() (parser.Node, error)
+//@   requires sourceOK(p) && tablesOK()
+//@   requires forall j int :: {p.L.toks[j]} 0 <= j && j < len(p.L.toks) ==> p.L.toks[j].Terminal != grammar.Endmarker
+//@   modifies heap
+//@   cbinv d = nodes != nil && len(nodes.seq) == d
+
+//@ func (p *Parser) ParseAndBuildAST$1(token *lexer.Token) error
+//@   captures nodes != nil
+//@   requires token != nil
+//@   modifies nodes.seq
+//@   ensures result == nil && len(nodes.seq) == len(old(nodes.seq)) + 1
+//@   ensures forall j int :: {nodes.seq[j]} 0 <= j && j < len(old(nodes.seq)) ==> nodes.seq[j] == old(nodes.seq)[j]
+//@   ensures @leaf typeis(nodes.seq[len(old(nodes.seq))], "*parser.LeafNode") && fresh(unbox(nodes.seq[len(old(nodes.seq))], "*parser.LeafNode"))
+//@     && unbox(nodes.seq[len(old(nodes.seq))], "*parser.LeafNode").Terminal == token.Terminal
+//@     && unbox(nodes.seq[len(old(nodes.seq))], "*parser.LeafNode").Lexeme == token.Lexeme
+//@     && unbox(nodes.seq[len(old(nodes.seq))], "*parser.LeafNode").Position == token.Pos
+
+//@ func (p *Parser) ParseAndBuildAST$2(i int) error
+//@   captures nodes != nil
+//@   requires tablesOK() && 0 <= i && i < prodCount() && prodLen(i) <= len(nodes.seq)
+//@   modifies nodes.seq
+//@   loop[0] invariant 0 <= __i0 && __i0 <= prodLen(i) && in != nil && fresh(in) && len(in.Children) == __i0 && in.Production == productions[i] && in.NonTerminal == productions[i].Head
+//@   loop[0] invariant len(nodes.seq) == len(old(nodes.seq)) - __i0
+//@   loop[0] invariant forall j int :: {nodes.seq[j]} 0 <= j && j < len(nodes.seq) ==> nodes.seq[j] == old(nodes.seq)[j]
+//@   loop[0] invariant forall j int :: {in.Children[j]} 0 <= j && j < __i0 ==> in.Children[j] == old(nodes.seq)[len(old(nodes.seq)) - __i0 + j]
+//@   ensures result == nil && len(nodes.seq) == len(old(nodes.seq)) - prodLen(i) + 1
+//@   ensures forall j int :: {nodes.seq[j]} 0 <= j && j < len(nodes.seq) - 1 ==> nodes.seq[j] == old(nodes.seq)[j]
+//@   ensures @internal-node (let n = unbox(nodes.seq[len(nodes.seq) - 1], "*parser.InternalNode") in typeis(nodes.seq[len(nodes.seq) - 1], "*parser.InternalNode") && n != nil && fresh(n)
+//@     && n.Production == productions[i] && n.NonTerminal == productions[i].Head && len(n.Children) == prodLen(i)
+//@     && (forall j int :: {n.Children[j]} 0 <= j && j < prodLen(i) ==> n.Children[j] == old(nodes.seq)[len(old(nodes.seq)) - prodLen(i) + j]))
